@@ -76,6 +76,10 @@ fn wr<T: Component>(world: &World) -> WriteStorage<'_, T> {
     }
 }
 
+fn alt() -> u32 {
+    ALT.with(|a| a.get())
+}
+
 fn give_back<T: TokComp>(v: T) {
     v.on_return();
     crate::ledger::give_back(v);
@@ -324,7 +328,18 @@ where
                 if !T::set_emit(world, b) {
                     return None;
                 }
-                json!({"b": b})
+                match T::get_emit(world) {
+                    Some(got) => json!({"b": b, "got": got}),
+                    None => json!({"b": b}),
+                }
+            }
+            "flagev" => {
+                let kind = op["ev"].as_str().unwrap_or("M");
+                let id = op["id"].as_u64().unwrap_or(0) as u32;
+                if !T::flag_event(world, kind, id) {
+                    return None;
+                }
+                json!({"ev": kind, "id": id})
             }
             _ => return None,
         };
@@ -347,13 +362,22 @@ where
                 let st = wr::<T>(world);
                 json!({"cls":"read","res": optjs(st.get(e))})
             }
+            // the generic storage traits are implemented for the storages and for references to them
             "gget" => {
                 let st = rd::<T>(world);
-                json!({"cls":"read","res": optjs(specs::storage::GenericReadStorage::get(&st, e))})
+                if alt() % 2 == 0 {
+                    json!({"cls":"read","res": optjs(specs::storage::GenericReadStorage::get(&st, e))})
+                } else {
+                    json!({"cls":"read","res": optjs(specs::storage::GenericReadStorage::get(&&st, e))})
+                }
             }
             "gwget" => {
                 let st = wr::<T>(world);
-                json!({"cls":"read","res": optjs(specs::storage::GenericReadStorage::get(&&st, e))})
+                if alt() % 2 == 0 {
+                    json!({"cls":"read","res": optjs(specs::storage::GenericReadStorage::get(&&st, e))})
+                } else {
+                    json!({"cls":"read","res": optjs(specs::storage::GenericReadStorage::get(&st, e))})
+                }
             }
             "contains" => {
                 let st = rd::<T>(world);
@@ -448,7 +472,9 @@ where
             }
             "gget_mut" => {
                 let mut st = wr::<T>(world);
-                let r = match GenericWriteStorage::get_mut(&mut st, e) {
+                let mut stref = &mut st;
+                let got = if alt() % 2 == 0 { GenericWriteStorage::get_mut(stref, e) } else { GenericWriteStorage::get_mut(&mut stref, e) };
+                let r = match got {
                     Some(mut a) => {
                         let before = (&*a).js();
                         if wval >= 0 {
@@ -548,7 +574,13 @@ where
             }
             "ginsert" => {
                 let mut st = wr::<T>(world);
-                let r = match GenericWriteStorage::insert(&mut st, e, T::new(c.0, c.1)) {
+                let mut stref = &mut st;
+                let got = if alt() % 2 == 0 {
+                    GenericWriteStorage::insert(stref, e, T::new(c.0, c.1))
+                } else {
+                    GenericWriteStorage::insert(&mut stref, e, T::new(c.0, c.1))
+                };
+                let r = match got {
                     Ok(Some(old)) => {
                         let j = old.js();
                         give_back(old);
@@ -658,7 +690,13 @@ where
             // ------------------------------------------------ get-or-default
             "gmod" => {
                 let mut st = wr::<T>(world);
-                let r = match st.get_mut_or_default(e) {
+                let mut stref = &mut st;
+                let got = if alt() % 2 == 0 {
+                    GenericWriteStorage::get_mut_or_default(stref, e)
+                } else {
+                    GenericWriteStorage::get_mut_or_default(&mut stref, e)
+                };
+                let r = match got {
                     Some(mut a) => {
                         let before = (&*a).js();
                         if wval >= 0 {
@@ -669,6 +707,17 @@ where
                     None => absent(),
                 };
                 json!({"cls":"gmod","res": r})
+            }
+            "gremove" => {
+                // GenericWriteStorage::remove returns nothing: the library destroys the value
+                let mut st = wr::<T>(world);
+                let mut stref = &mut st;
+                if alt() % 2 == 0 {
+                    GenericWriteStorage::remove(stref, e);
+                } else {
+                    GenericWriteStorage::remove(&mut stref, e);
+                }
+                json!({"cls":"gremove"})
             }
             _ => panic!("harness: unknown storage path {}", path),
         }
